@@ -333,3 +333,80 @@ func H18Twice() {
 		vndAssert(fmt.Sprint(c.Denominator.Values) == fmt.Sprint(wantD), "denominator-sample-is-exactly-the-matching-measurements")
 	}
 }
+
+// H18Bootstrap: bootstrap summaries on small samples whose values are solver-chosen from a
+// short list: two benchmarks at one series point, each with numerator and denominator
+// samples of two measurements. The real AddSummaries runs (real math/rand, seeded from the
+// samples as the code does). Every summary lies between the smallest and largest attainable
+// ratio (up to the rounding of the percentile interpolation, see the open finding), with
+// low <= centre <= high up to the same rounding; summaries computed again from the same
+// results are bit-identical; a benchmark's summary does not depend on the other benchmark.
+func H18Bootstrap() {
+	conf := []float64{0.9, 0.95}[vndParam("conf")]
+	N := vndParam("resamples")
+	opts := []float64{16, 32}
+	var vals [2][2][2]float64 // benchmark, role (0 numerator), index
+	for b := 0; b < 2; b++ {
+		for r := 0; r < 2; r++ {
+			for k := 0; k < 2; k++ {
+				vals[b][r][k] = opts[vndChoice("v", len(opts))]
+			}
+		}
+	}
+	build := func(only int) []*ComparisonSeries {
+		bd, err := NewBuilder(h18Options())
+		if err != nil {
+			panic(err)
+		}
+		for b := 0; b < 2; b++ {
+			if only >= 0 && b != only {
+				continue
+			}
+			for r := 0; r < 2; r++ {
+				for k := 0; k < 2; k++ {
+					res := &benchfmt.Result{Name: benchfmt.Name([]byte{'P' + byte(b)}), Iters: 1}
+					add := func(k, v string) {
+						res.Config = append(res.Config, benchfmt.Config{Key: k, Value: []byte(v), File: true})
+					}
+					add("exp", h18Stamps[0])
+					add("ser", h18Stamps[0])
+					add("role", string([]byte{"TB"[r]}))
+					add("nh", "n0")
+					add("dh", "d0")
+					res.Values = []benchfmt.Value{{Value: vals[b][r][k], Unit: "u"}}
+					bd.Add(res)
+				}
+			}
+		}
+		css, err := bd.AllComparisonSeries(nil, DUPE_REPLACE)
+		if err != nil || len(css) != 1 {
+			panic("h18: series")
+		}
+		css[0].AddSummaries(conf, N)
+		return css
+	}
+	css := build(-1)
+	again := build(-1)
+	vndReach("h18:bootstrap")
+	ser := css[0].Series[0]
+	for b := 0; b < 2; b++ {
+		name := string([]byte{'P' + byte(b)})
+		s, ok := css[0].SummaryAt(name, ser)
+		vndAssert(ok && s != nil && s.Present, "summary-present-when-both-samples-exist")
+		if !ok || s == nil || !s.Present {
+			continue
+		}
+		nu, de := vals[b][0], vals[b][1]
+		lo := math.Min(nu[0], nu[1]) / math.Max(de[0], de[1])
+		hi := math.Max(nu[0], nu[1]) / math.Min(de[0], de[1])
+		eps := 1e-12
+		vndAssert(s.Low >= lo*(1-eps) && s.High <= hi*(1+eps) && s.Center >= lo*(1-eps) && s.Center <= hi*(1+eps), "summary-within-the-attainable-ratios-up-to-rounding")
+		vndAssert(s.Low <= s.Center*(1+eps) && s.Center <= s.High*(1+eps), "low-centre-high-ordered-up-to-rounding")
+		s2, ok2 := again[0].SummaryAt(name, ser)
+		vndAssert(ok2 && s2 != nil && s2.Center == s.Center && s2.Low == s.Low && s2.High == s.High, "summaries-reproducible-for-given-samples")
+		alone := build(b)
+		s3, ok3 := alone[0].SummaryAt(name, ser)
+		vndAssert(ok3 && s3 != nil && s3.Center == s.Center && s3.Low == s.Low && s3.High == s.High, "summary-depends-only-on-its-own-samples")
+		vndObserveF64("centre", s.Center)
+	}
+}
